@@ -114,6 +114,7 @@ ADD3 = {
  "C14": " The concurrent phase runs first in every job and adds a bystander goroutine that consumes a generator of another element type (string) at the same time: independence across instantiations of the generic runtime, nothing warmed up.",
  "C15": " The second version of the edited source imports the runtime package by name (what one file calls the runtime must not leak into the files visited after it); the dependency scenario also has a generator whose element type is declared in the sub-package (open finding KF34: named clause ProvisionalDep).",
  "C03": " F_loopvar: closures capturing the variable of a three-clause loop in different iterations (per-iteration copies of Go >= 1.22: NextIter of CoSource.tla; open finding KF35).",
+ "C11": " One more configuration: a parameter named like the element type (type a = int; func G(r, a, b a) Iter[a]; open finding KF36).",
  "C18": " The panic token of the specification is instantiated per run by one of five Go values chosen by the tape (string, error value, pointer, struct value, genuine runtime error) and a recovered value counts as the original only on identity. Family F_nilit: pull loops `for it.MoveNext() {..}` over an iterator variable that is nil (CoSource condition itn): the nil dereference belongs to the advance that evaluates the condition.",
 }
 for k, (t, n) in ADD.items():
